@@ -15,6 +15,7 @@
 -/
 import NutsModel.C05.Forms
 import NutsModel.C05.Today
+import NutsModel.C05.Vci
 
 namespace Nuts.C05
 
@@ -83,5 +84,24 @@ def runFormCalls (cfg : Cfg) (pk : Pkce) : Nat → Store → List (Nat × Form) 
   | now, st, (dt, f) :: rest =>
     let c : Sq := ⟨cfg.expInclusive, now + dt, cfg.ttl⟩
     (soloCalls cfg (now + dt) st (formThreads c pk st f)).1 :: runFormCalls cfg pk (now + dt) (handleForm c pk st f).2 rest
+
+/-! ### OpenID4VCI token endpoint -/
+
+/-- the thread a token request with a pre-authorized code stands for: it consumes the code (`refStore.GetAndDelete`); what
+    the handler does with the consumed flow id afterwards (flow lookup, issuer comparison, storing the two tokens) is the
+    thread's `post` -/
+def preAuthReq (c : Sq) (s : VciSt) (issuer code tok cn : String) : BurnReq :=
+  { kind := .preAuth, id := code, want := (stGet c.incl s.codes c.now (preAuthKey code)).getD "",
+    post := decide ((handlePreAuth c s issuer code tok cn).ans = .ok) }
+
+/-- issuer calls served one after the other (as `runVForms`): per token request the underlying calls of its thread on the
+    pre-authorized-code store -/
+def runVFormCalls (cfg : Cfg) : Nat → VciSt → List (Nat × VForm) → List (List String)
+  | _, _, [] => []
+  | now, s, (dt, f) :: rest =>
+    let c : Sq := ⟨cfg.expInclusive, now + dt, cfg.ttl⟩
+    (match f with
+     | .token issuer code tok cn => (soloCalls cfg (now + dt) s.codes [.burn (preAuthReq c s issuer code tok cn)]).1
+     | _ => []) :: runVFormCalls cfg (now + dt) (handleVForm c s f).st rest
 
 end Nuts.C05
